@@ -1109,7 +1109,7 @@ def compare_seq(R, rq, impl, model, ctx):
             if tag(mo) == "ok":
                 sub += corr_nd(Rm, fr, mo, ctx)
             elif tag(mo) == "err":
-                sub += nmax_return(Rm, fr, ctx)
+                sub += nmax_return(Rm, fr, ctx, mo)
         elif tag(fr) == "err":
             sub.append(fail("prop", CL_EXIT_BOWL, "class %s, ftol %r; model: %s" % (Rm["cls"], Rm["ftol"], tag(mo))))
         for f in sub:
@@ -1156,8 +1156,26 @@ def compare_seq(R, rq, impl, model, ctx):
     return out
 
 
-def nmax_return(R, impl, ctx):
-    """the model stops with 'NMAX exceeded' but the implementation returns a point"""
+CL_SHAPE = ("minimize: accepts a malformed request (initial simplex not n+1 vertices of n >= 1 coordinates, empty starting point, "
+            "or a displacement vector of another length) without a diagnostic")
+
+
+def malformed(R):
+    """the request violates the shape contract of the minimize overloads (decided from the request alone)"""
+    if R["op"] == "c11.nm":
+        pp = R.get("pp")
+        return pp is not None and (len(pp) < 2 or len(pp) != len(pp[0]) + 1 or any(len(r) != len(pp[0]) for r in pp))
+    if R["op"] == "c11.nmd":
+        return R.get("start") is not None and (len(R["start"]) == 0 or len(R["deltas"]) != len(R["start"]))
+    if R["op"] == "c11.nm1":
+        return R.get("start") is not None and len(R["start"]) == 0
+    return False
+
+
+def nmax_return(R, impl, ctx, model=""):
+    """the model stops with a diagnostic but the implementation returns a point"""
+    if model.startswith("err shape"):
+        return [fail("prop", CL_SHAPE, "")]
     r = conv_nd(R, parse_impl_nd(impl), ctx) if R["cls"] in BOWL_ND and "fs" in R else None
     if r:
         return [fail("prop", CL_NMAX_RETURN, r[1])]
@@ -1182,6 +1200,14 @@ def compare(rq, impl, model, ctx):
             return [fail("prop", "minimiser does not terminate (timeout)", impl[:100])]
         return [fail("prop", "crash/sanitizer/silent exit: " + ti, impl[:200])]
     out = []
+    if ti == "err" and malformed(R):
+        bump(ctx, "exit.shape-guard")
+        ctx["nontrivial"].add((op, "shape-guard"))
+        if tm != "err":
+            out.append(fail("corr", "the implementation rejects a malformed request that the model accepts", model[:60]))
+        return out
+    if ti == "ok" and malformed(R):
+        return [fail("prop", CL_SHAPE, "")]
     if ti == "err":
         bump(ctx, "exit.diagnostic")
         if tm == "err":
@@ -1214,7 +1240,7 @@ def compare(rq, impl, model, ctx):
         if tm == "ok":
             out += corr_nd(R, impl, model, ctx)
         elif tm == "err":
-            out += nmax_return(R, impl, ctx)
+            out += nmax_return(R, impl, ctx, model)
         else:
             bump(ctx, "model.undef")
     return out
